@@ -585,9 +585,9 @@ def run(pid, fn, tier, seed, assumptions):
             detail.update(kind="universe", state=tlaval_py(states[i]), seed=jobs[i][1])
             ck.violation(tags | universe_tags(states[i]), detail)
     ck.note("universes", len(states))
-    if pid in ("C05", "C12"):
+    if pid in ("C05", "C12", "C06"):
         from . import typeres
-        typeres.run(ck, tier, "definition" if pid == "C05" else "completion")
+        typeres.run(ck, tier, {"C05": "definition", "C12": "completion", "C06": "references"}[pid])
         if pid == "C05":
             from . import usegraph
             usegraph.run(ck, tier)
